@@ -436,6 +436,63 @@ static void advance(int evt)
         }
 }
 
+/* Would every completion of this line prefix be answered with ERROR?  Used only to
+ * forget the bytes of doomed lines (so that states merge); returns a reason code
+ * (0 = not doomed, 1 malformed, 2 no such command, 3 ambiguous before '=', 4 over-long). */
+int ref_prefix_doomed(const uint8_t *line, int len)
+{
+        uint8_t s[W_TEXT * 2];
+        int n = 0;
+        for (int i = 0; i < len && n < (int)sizeof s; i++) if (line[i] != '\r') s[n++] = line[i];
+        if (n == 0) return 0;
+        if (up((char)s[0]) != 'A') return 1;
+        if (n < 2) return 0;
+        if (up((char)s[1]) != 'T') return 1;
+        uint8_t name[W_TEXT];
+        int nl = 0, why = 0;
+        for (int i = 2; i < n; i++) {
+                uint8_t ch = (uint8_t)up((char)s[i]);
+                if (valid_name_char(ch)) {
+                        if (nl >= (int)sizeof name) return 0;
+                        name[nl++] = ch;
+                        for (int k = 0; k < W.ncmd; k++)
+                                if (cmd_enabled(k) && W.cmd[k].implicit && name_eq(W.cmd[k].name, name, nl))
+                                        return (n - (i + 1) > I.cap - 1) ? 4 : 0;
+                        int any = 0;
+                        for (int k = 0; k < W.ncmd; k++)
+                                if (cmd_enabled(k) && (name_eq(W.cmd[k].name, name, nl) || name_prefix(W.cmd[k].name, name, nl))) any = 1;
+                        if (!any) return 2;
+                        continue;
+                }
+                if (ch == '?') {
+                        if (nl == 0) return 1;
+                        return (i + 1 != n) ? 1 : 0;
+                }
+                if (ch == '=') {
+                        if (nl == 0) return 1;
+                        int c = resolve(name, nl, &why);
+                        if (c < 0) return why == 3 ? 3 : 2;
+                        int alen = n - (i + 1);
+                        const struct wcmd *w = &W.cmd[c];
+                        if (alen >= 1 && s[i + 1] == '?' && ((w->hmask & HM_T) || w->nvar > 0) && !w->implicit) return alen > 1 ? 1 : 0;
+                        return (alen > I.cap - 1) ? 4 : 0;
+                }
+                return 1;
+        }
+        return 0;
+}
+
+void ref_on_doomed_line(int reason, int crlf)
+{
+        struct refm *r = &M->c;
+        memset(r, 0, sizeof *r);
+        r->cmd = -1;
+        r->crlf = (uint8_t)crlf;
+        WS.lines_done++;
+        if (reason == 1) WS.drain_err++; else if (reason == 2) WS.notfound++; else if (reason == 3) WS.ambiguous_eq++; else WS.overlong++;
+        finish_error(0);
+}
+
 /* classification of one complete line (without its LF) */
 void ref_on_line(const uint8_t *line, int len)
 {
@@ -452,6 +509,7 @@ void ref_on_line(const uint8_t *line, int len)
                 s[n++] = line[i];
         }
         for (int i = n; i < len; i++) s[i] = 0;
+        r->line_n = (uint16_t)n;
         WS.lines_done++;
         if (n == 0) mcx_fatal("ref_on_line on blank line");
         if (up((char)s[0]) != 'A') { WS.drain_err++; finish_error(0); return; }
@@ -590,7 +648,7 @@ int ref_expect_handler(int evt, int kind, int cmd, const uint8_t *data, size_t s
         return 1;
 }
 
-void ref_handler_returned(int evt, int kind, int code, const uint8_t *data, size_t size)
+static void handler_returned(int evt, int kind, int code, const uint8_t *data, size_t size)
 {
         struct refm *r = RM(evt);
         (void)size;
@@ -638,6 +696,12 @@ void ref_handler_returned(int evt, int kind, int code, const uint8_t *data, size
         }
 }
 
+void ref_handler_returned(int evt, int kind, int code, const uint8_t *data, size_t size)
+{
+        handler_returned(evt, kind, code, data, size);
+        if (evt) evt_maybe_complete();
+}
+
 void ref_var_cb(int is_write, int cmd, int var, size_t write_size, int result)
 {
         int mc = 0, me = 0;
@@ -661,14 +725,21 @@ void ref_var_cb(int is_write, int cmd, int var, size_t write_size, int result)
                 r->cb_pending = 2;
         } else r->cb_pending = 0;
         if (evt) evt_observable();
-        if (result != 0) { finish_error(evt); return; }
-        advance(evt);
+        if (result != 0) finish_error(evt);
+        else advance(evt);
+        if (evt) evt_maybe_complete();
 }
 
 /* all result units of the line are out: compare variable storage with the reference */
 void ref_line_completed(void)
 {
         struct refm *r = &M->c;
+        if (WS.nsample_lines < 6 && (WS.lines_done % 5) == 1 && r->line_n < 190) {
+                int k = WS.nsample_lines++;
+                memcpy(WS.sample_line[k], I.line, r->line_n);
+                WS.sample_line[k][r->line_n] = '\n';
+                WS.sample_len[k] = r->line_n + 1;
+        }
         for (int c = 0; c < W.ncmd; c++)
                 for (int v = 0; v < W.cmd[c].nvar; v++) {
                         uint8_t *real = w_vardata(c, v), *sh = w_shadow(c, v);
